@@ -702,3 +702,275 @@ Qed.
 
 Theorem file_order_complete : forall R, Permutation (file_order R) (areas_of R).
 Proof. intro R. unfold file_order. apply py_sorted_perm. Qed.
+
+(* ================= qualifier-level codecs ================= *)
+
+(* ---- aStool: "externally annotated by: " ++ tool ---- *)
+Lemma split_ext_label : forall tool,
+  split_colon_space (ext_label ++ tool) = Some (ext_prefix ++ [32; 98; 121], tool).
+Proof. intro tool. reflexivity. Qed.
+
+Lemma starts_ext_label : forall tool, starts_with ext_prefix (ext_label ++ tool) = true.
+Proof. intro tool. reflexivity. Qed.
+
+Theorem astool_codec : forall side tool, starts_with ext_prefix tool = false ->
+  astool_decode (astool_text side tool) = Ok (side, tool).
+Proof.
+  intros side tool H. destruct side; unfold astool_decode, astool_text.
+  - rewrite starts_ext_label, split_ext_label, H. reflexivity.
+  - rewrite H. reflexivity.
+Qed.
+
+(* "externally annotated by me" ; "externally annotated: x" ; "in-house pipeline: pass 2" *)
+Definition W_tool_rec : str :=
+  [101; 120; 116; 101; 114; 110; 97; 108; 108; 121; 32; 97; 110; 110; 111; 116; 97; 116; 101; 100; 32; 98; 121; 32; 109; 101].
+Definition W_tool_plain : str :=
+  [101; 120; 116; 101; 114; 110; 97; 108; 108; 121; 32; 97; 110; 110; 111; 116; 97; 116; 101; 100; 58; 32; 120].
+Definition W_tool_colon : str :=
+  [105; 110; 45; 104; 111; 117; 115; 101; 32; 112; 105; 112; 101; 108; 105; 110; 101; 58; 32; 112; 97; 115; 115; 32; 50].
+
+Lemma astool_prefix_refuted :
+  astool_decode (astool_text true W_tool_rec) = Err E_Runtime /\
+  astool_decode (astool_text false W_tool_plain) = Ok (true, [120]) /\
+  astool_decode (astool_text false ext_prefix) = Err E_Index.
+Proof. repeat split; reflexivity. Qed.
+
+(* ---- number lists ---- *)
+Theorem numbers_codec : forall l, numbers_parse (numbers_text l) = Ok l.
+Proof.
+  induction l as [|n r IH]; [reflexivity|].
+  unfold numbers_parse, numbers_text in *. cbn [map mapM]. rewrite parse_int_str_of_int. cbn [bind].
+  rewrite IH. reflexivity.
+Qed.
+
+(* ---- _parse_format ---- *)
+Definition grp_of (p : list pitem) :=
+  fix grp (acc : str) (s : str) {struct s} : option (list str) :=
+    match s with
+    | [] => None
+    | x :: r => if x =? 10 then None else
+                match pmatch p r with
+                | Some g => Some (rev (x :: acc) :: g)
+                | None => grp (x :: acc) r
+                end
+    end.
+
+Lemma pmatch_group : forall p s, pmatch (PGroup :: p) s = grp_of p [] s.
+Proof. reflexivity. Qed.
+
+Definition nonl (s : str) : bool := negb (cmem 10 s).
+
+Lemma cmem_cons : forall c x s, cmem c (x :: s) = (c =? x) || cmem c s.
+Proof. reflexivity. Qed.
+
+Lemma grp_exact : forall p rest g a acc, a <> [] -> nonl a = true -> pmatch p rest = Some g ->
+  (forall a1 x a2, a = a1 ++ x :: a2 -> a1 <> [] -> pmatch p (x :: a2 ++ rest) = None) ->
+  grp_of p acc (a ++ rest) = Some ((rev acc ++ a) :: g).
+Proof.
+  intros p rest g. induction a as [|x a IH]; intros acc Hne Hnl Hok Hfail; [congruence|].
+  unfold nonl in Hnl. rewrite cmem_cons in Hnl. apply negb_true_iff in Hnl. apply orb_false_iff in Hnl.
+  destruct Hnl as [Hx Hnl]. rewrite Z.eqb_sym in Hx.
+  cbn [app grp_of]. rewrite Hx.
+  destruct a as [|y a'].
+  - cbn [app]. rewrite Hok. cbn [rev]. reflexivity.
+  - change ((y :: a') ++ rest) with (y :: a' ++ rest) at 1.
+    rewrite (Hfail [x] y a' eq_refl) by discriminate.
+    change (y :: a' ++ rest) with ((y :: a') ++ rest).
+    rewrite (IH (x :: acc)).
+    + cbn [rev]. rewrite <- app_assoc. reflexivity.
+    + discriminate.
+    + unfold nonl. rewrite Hnl. reflexivity.
+    + exact Hok.
+    + intros a1 z a2 E Hn. apply (Hfail (x :: a1) z a2); [rewrite E; reflexivity | discriminate].
+Qed.
+
+Lemma cmem_split : forall c (a1 : str) x a2, cmem c (a1 ++ x :: a2) = false -> c <> x.
+Proof.
+  intros c a1 x a2 H. rewrite cmem_app, cmem_cons in H. apply orb_false_iff in H. destruct H as [_ H].
+  apply orb_false_iff in H. destruct H as [H _]. apply Z.eqb_neq in H. exact H.
+Qed.
+
+(* a field followed by a literal character the field does not contain *)
+Lemma group_lit : forall q c a Y g, a <> [] -> nonl a = true -> cmem c a = false ->
+  pmatch q Y = Some g -> pmatch (PGroup :: PLit c :: q) (a ++ c :: Y) = Some (a :: g).
+Proof.
+  intros q c a Y g Hne Hnl Hc Hq. rewrite pmatch_group.
+  rewrite (grp_exact (PLit c :: q) (c :: Y) g a []); [reflexivity | exact Hne | exact Hnl | |].
+  - cbn [pmatch]. rewrite Z.eqb_refl. exact Hq.
+  - intros a1 x a2 E _. rewrite E in Hc. apply cmem_split in Hc. cbn [pmatch].
+    destruct (x =? c) eqn:Exc; [apply Z.eqb_eq in Exc; congruence | reflexivity].
+Qed.
+
+(* a field followed by an optional space and a literal, the field containing neither *)
+Lemma group_opt_lit : forall q c a Y g, a <> [] -> nonl a = true -> cmem c a = false -> cmem 32 a = false ->
+  pmatch (POptSpace :: PLit c :: q) Y = Some g ->
+  pmatch (PGroup :: POptSpace :: PLit c :: q) (a ++ Y) = Some (a :: g).
+Proof.
+  intros q c a Y g Hne Hnl Hc Hs Hq. rewrite pmatch_group.
+  rewrite (grp_exact (POptSpace :: PLit c :: q) Y g a []); [reflexivity | exact Hne | exact Hnl | exact Hq |].
+  intros a1 x a2 E _. rewrite E in Hc, Hs. apply cmem_split in Hc. apply cmem_split in Hs.
+  cbn [pmatch].
+  destruct (x =? 32) eqn:E32; [apply Z.eqb_eq in E32; congruence|].
+  destruct (x =? c) eqn:Exc; [apply Z.eqb_eq in Exc; congruence | reflexivity].
+Qed.
+
+Lemma opt_space_taken : forall q Y g, pmatch q Y = Some g -> pmatch (POptSpace :: q) (32 :: Y) = Some g.
+Proof. intros q Y g H. cbn [pmatch]. rewrite Z.eqb_refl, H. reflexivity. Qed.
+
+Lemma lit_taken : forall q c Y, pmatch (PLit c :: q) (c :: Y) = pmatch q Y.
+Proof. intros. cbn [pmatch]. rewrite Z.eqb_refl. reflexivity. Qed.
+
+(* the last field: everything up to the end *)
+Lemma group_end : forall a, a <> [] -> nonl a = true -> pmatch [PGroup] a = Some [a].
+Proof.
+  intros a Hne Hnl. rewrite pmatch_group. rewrite <- (app_nil_r a) at 1.
+  rewrite (grp_exact [] [] [] a []); [reflexivity | exact Hne | exact Hnl | reflexivity |].
+  intros a1 x a2 E _. rewrite app_nil_r. cbn [pmatch at_end].
+  destruct a2; [|reflexivity].
+  unfold nonl in Hnl. rewrite E, cmem_app, cmem_cons in Hnl. apply negb_true_iff in Hnl.
+  apply orb_false_iff in Hnl. destruct Hnl as [_ Hnl]. apply orb_false_iff in Hnl. destruct Hnl as [Hnl _].
+  rewrite Z.eqb_sym in Hnl. rewrite Hnl. reflexivity.
+Qed.
+
+(* a format with a literal character that the text does not contain matches nothing *)
+Lemma grp_lit_absent : forall p c, (forall s, cmem c s = false -> pmatch p s = None) ->
+  forall s acc, cmem c s = false -> grp_of p acc s = None.
+Proof.
+  intros p c Hp. induction s as [|x r IH]; intros acc H; [reflexivity|].
+  rewrite cmem_cons in H. apply orb_false_iff in H. destruct H as [_ H].
+  cbn [grp_of]. destruct (x =? 10); [reflexivity|]. rewrite (Hp r H). apply IH. exact H.
+Qed.
+
+Lemma pmatch_lit_absent : forall c pat, In (PLit c) pat -> forall s, cmem c s = false -> pmatch pat s = None.
+Proof.
+  intros c. induction pat as [|it p IH]; intros Hin s H; [destruct Hin|].
+  destruct it as [c'| |].
+  - destruct s as [|x r]; [reflexivity|]. cbn [pmatch].
+    rewrite cmem_cons in H. apply orb_false_iff in H. destruct H as [Hx Hr].
+    destruct Hin as [Heq|Hin].
+    + injection Heq as ->. rewrite Z.eqb_sym, Hx. reflexivity.
+    + destruct (x =? c'); [apply IH; assumption | reflexivity].
+  - destruct Hin as [Heq|Hin]; [discriminate|].
+    destruct s as [|x r]; cbn [pmatch]; [apply IH; assumption|].
+    assert (Hr : cmem c r = false) by (rewrite cmem_cons in H; apply orb_false_iff in H; tauto).
+    destruct (x =? 32); [rewrite (IH Hin r Hr)|]; apply IH; assumption.
+  - destruct Hin as [Heq|Hin]; [discriminate|].
+    rewrite pmatch_group. apply (grp_lit_absent p c); [intros; apply IH; assumption | exact H].
+Qed.
+
+(* ---- gene function annotations ---- *)
+Definition is_nil {A} (l : list A) : bool := match l with [] => true | _ => false end.
+
+Definition wf_gfa (g : gfa) : bool :=
+  (0 <=? gfun g) && (gfun g <=? 5) &&
+  negb (is_nil (gtool g)) && forallb (fun c => negb (is_space c) && negb (c =? 41)) (gtool g) &&
+  negb (is_nil (gdesc g)) && nonl (gdesc g) &&
+  match gproduct g with
+  | Some p => negb (is_nil p) && nonl p && negb (cmem 58 p)
+  | None => negb (gfun g =? 1) && negb (cmem 58 (gtool g)) && negb (cmem 58 (gdesc g))
+  end.
+
+Lemma gf_name_facts : forall f, 0 <= f <= 5 ->
+  gf_name f <> [] /\ nonl (gf_name f) = true /\ cmem 40 (gf_name f) = false /\ cmem 32 (gf_name f) = false /\
+  cmem 58 (gf_name f) = false /\ gf_from_string (gf_name f) = Ok f.
+Proof.
+  intros f H.
+  assert (C : f = 0 \/ f = 1 \/ f = 2 \/ f = 3 \/ f = 4 \/ f = 5) by lia.
+  destruct C as [->|[->|[->|[->|[->| ->]]]]]; (split; [discriminate | repeat split; reflexivity]).
+Qed.
+
+Lemma tokens_in : forall s, forallb (fun c => negb (is_space c)) s = true -> count_tokens true s = O.
+Proof.
+  induction s as [|c r IH]; intro H; [reflexivity|]. cbn [forallb] in H. apply andb_true_iff in H.
+  destruct H as [Hc Hr]. apply negb_true_iff in Hc. cbn [count_tokens]. rewrite Hc, (IH Hr). reflexivity.
+Qed.
+
+Lemma tokens_one : forall s, s <> [] -> forallb (fun c => negb (is_space c)) s = true -> count_tokens false s = 1%nat.
+Proof.
+  intros [|c r] Hne H; [congruence|]. cbn [forallb] in H. apply andb_true_iff in H.
+  destruct H as [Hc Hr]. apply negb_true_iff in Hc. cbn [count_tokens]. rewrite Hc, (tokens_in r Hr). reflexivity.
+Qed.
+
+Lemma is_nil_false : forall A (l : list A), negb (is_nil l) = true -> l <> [].
+Proof. intros A [|x r] H; [discriminate | discriminate]. Qed.
+
+Lemma tool_chars : forall t, forallb (fun c => negb (is_space c) && negb (c =? 41)) t = true ->
+  forallb (fun c => negb (is_space c)) t = true /\ cmem 41 t = false /\ nonl t = true.
+Proof.
+  induction t as [|c r IH]; intro H; [repeat split; reflexivity|].
+  cbn [forallb] in H. apply andb_true_iff in H. destruct H as [Hc Hr].
+  apply andb_true_iff in Hc. destruct Hc as [Hs H41]. destruct (IH Hr) as [I1 [I2 I3]].
+  repeat split.
+  - cbn [forallb]. rewrite Hs, I1. reflexivity.
+  - rewrite cmem_cons, I2. apply negb_true_iff in H41. rewrite Z.eqb_sym, H41. reflexivity.
+  - unfold nonl in *. rewrite cmem_cons. apply negb_true_iff in I3. rewrite I3.
+    apply negb_true_iff in Hs. unfold is_space in Hs.
+    destruct (10 =? c) eqn:E; [apply Z.eqb_eq in E; subst c; discriminate | reflexivity].
+Qed.
+
+Lemma pat4_eq : pat_of_format gf_format4 =
+  [PGroup; POptSpace; PLit 40; PGroup; PLit 41; POptSpace; PGroup; PLit 58; POptSpace; PGroup].
+Proof. reflexivity. Qed.
+Lemma pat3_eq : pat_of_format gf_format3 = [PGroup; POptSpace; PLit 40; PGroup; PLit 41; POptSpace; PGroup].
+Proof. reflexivity. Qed.
+
+Lemma gfa_build_ok : forall f tool desc prod, 0 <= f <= 5 ->
+  tool <> [] -> forallb (fun c => negb (is_space c)) tool = true -> desc <> [] ->
+  ((f =? 1) && match prod with Some (_ :: _) => false | _ => true end = false) ->
+  gfa_build (gf_name f) tool desc prod = Ok (mkGfa f tool prod desc).
+Proof.
+  intros f tool desc prod Hf Ht Hs Hd Hc. unfold gfa_build.
+  destruct (gf_name_facts f Hf) as [_ [_ [_ [_ [_ ->]]]]]. cbn [bind].
+  destruct tool as [|c t]; [congruence|]. rewrite (tokens_one (c :: t)) by (assumption || discriminate).
+  cbn [Nat.eqb negb]. destruct desc as [|d ds]; [congruence|].
+  destruct (f =? 1); destruct prod as [[|pc pr]|]; cbn [andb] in *; try discriminate; reflexivity.
+Qed.
+
+Theorem gfa_codec : forall g, wf_gfa g = true -> gfa_parse (gfa_text g) = Ok g.
+Proof.
+  intros [f tool prod desc] H. unfold wf_gfa in H. cbn [gfun gtool gproduct gdesc] in H.
+  repeat (apply andb_true_iff in H; destruct H as [H ?]).
+  assert (Hf : 0 <= f <= 5) by lia.
+  destruct (gf_name_facts f Hf) as [Fne [Fnl [F40 [F32 [F58 _]]]]].
+  match goal with Ht : forallb _ tool = true |- _ => destruct (tool_chars tool Ht) as [Tsp [T41 Tnl]] end.
+  match goal with Ht : negb (is_nil tool) = true |- _ => pose proof (is_nil_false _ _ Ht) as Tne end.
+  match goal with Ht : negb (is_nil desc) = true |- _ => pose proof (is_nil_false _ _ Ht) as Dne end.
+  unfold gfa_parse, gfa_text. cbn [gfun gtool gproduct gdesc]. rewrite pat4_eq, pat3_eq.
+  destruct prod as [p|].
+  - match goal with Hp : _ && _ && _ = true |- _ =>
+      apply andb_true_iff in Hp; destruct Hp as [Hp P58]; apply andb_true_iff in Hp; destruct Hp as [Pne Pnl] end.
+    apply is_nil_false in Pne. apply negb_true_iff in P58.
+    destruct p as [|pc pr]; [congruence|]. set (p := pc :: pr) in *.
+    cbn [app].
+    rewrite (group_opt_lit _ 40 (gf_name f) _ [tool; p; desc]); try assumption.
+    + cbv beta iota. apply gfa_build_ok; try assumption.
+      unfold p. rewrite andb_false_r. reflexivity.
+    + apply opt_space_taken. rewrite lit_taken.
+      apply group_lit; try assumption. apply opt_space_taken.
+      apply group_lit; try assumption. apply opt_space_taken.
+      apply group_end; assumption.
+  - match goal with Hp : _ && _ && _ = true |- _ =>
+      apply andb_true_iff in Hp; destruct Hp as [Hp D58]; apply andb_true_iff in Hp; destruct Hp as [Hcore T58] end.
+    apply negb_true_iff in D58. apply negb_true_iff in T58. apply negb_true_iff in Hcore.
+    cbn [app].
+    rewrite pmatch_lit_absent with (c := 58).
+    + rewrite (group_opt_lit _ 40 (gf_name f) _ [tool; desc]); try assumption.
+      * cbv beta iota. apply gfa_build_ok; try assumption. rewrite Hcore. reflexivity.
+      * apply opt_space_taken. rewrite lit_taken.
+        apply group_lit; try assumption. apply opt_space_taken. apply group_end; assumption.
+    + cbn [In]. tauto.
+    + rewrite cmem_app, F58. cbn [orb]. rewrite !cmem_cons, cmem_app, T58. cbn [orb].
+      rewrite !cmem_cons, D58. reflexivity.
+Qed.
+
+(* the format is ambiguous: ADDITIONAL (smcogs) "SMCOG1001: thing" without product prints as
+   "biosynthetic-additional (smcogs) SMCOG1001: thing" and reads back with product "SMCOG1001" and
+   description "thing"; the text of the re-read annotation is the same *)
+Definition W_gfa : gfa :=
+  mkGfa 2 [115; 109; 99; 111; 103; 115] None [83; 77; 67; 79; 71; 49; 48; 48; 49; 58; 32; 116; 104; 105; 110; 103].
+Definition W_gfa' : gfa :=
+  mkGfa 2 [115; 109; 99; 111; 103; 115] (Some [83; 77; 67; 79; 71; 49; 48; 48; 49]) [116; 104; 105; 110; 103].
+
+Lemma gfa_colon_refuted :
+  gfa_parse (gfa_text W_gfa) = Ok W_gfa' /\ W_gfa' <> W_gfa /\ gfa_text W_gfa' = gfa_text W_gfa.
+Proof. split; [reflexivity | split; [discriminate | reflexivity]]. Qed.
